@@ -6,18 +6,9 @@ From DSW Require Import Py Bignum Convert Kmer Graph Spec GraphSpec.
 From DSW.Proofs Require Import KmerProofs GraphProofs.
 Ltac Zify.zify_post_hook ::= Z.to_euclidean_division_equations.
 
-(* TARGET STATEMENTS still to be proved (the others are proved below):
-
-Theorem coding_graph_t1 : forall k mask, (1 <= k)%nat -> length mask = Z.to_nat (pow4 k) -> Forall bit mask ->
-  match connect_coding_graph k mask 1 with
-  | Ok (V, acc) => largest_closed k 1 (maskb mask) (live_set acc)
-                   /\ acc = induced_on k (live_set acc) /\ legal k acc
-                   /\ (forall v, In v V <-> vin k (live_set acc) v)
-                   /\ (exists v, vin k (live_set acc) v)
-  | Raise ValueError => forall Y, closed k 1 Y -> vsub k Y (maskb mask) -> vempty k Y
-  | _ => False
-  end.
-*)
+(* All TARGET STATEMENTS are proved below, exactly as given:
+   part A: trim_spec;  part B: coding_graph_t2, largest_closed_monotone, largest_closed_unique,
+   induced_on_closed_live;  part C: coding_graph_t1. *)
 
 (* ======================================================================================== *)
 (* generic list facts                                                                       *)
@@ -766,3 +757,506 @@ Proof.
       * pose proof (lat_range k v j). rewrite Hoth in Hd by lia. exact Hd.
     + intros Hne. contradiction Hne. reflexivity.
 Qed.
+
+Lemma cascade_fold : forall k pairs acc np, (1 <= k)%nat -> cinv k acc (pairs ++ np) ->
+  exists acc' extra, fold_left (cascade_pair k) pairs (acc, np) = (acc', np ++ extra) /\
+    cinv k acc' (np ++ extra) /\
+    (forall w, 0 <= w < pow4 k -> live_set acc' w = true -> live_set acc w = true) /\
+    (extra <> [] -> exists w, 0 <= w < pow4 k /\ live_set acc w = true /\ live_set acc' w = false) /\
+    (forall Y, closed_deg k 1 Y -> vsub k Y (live_set acc) -> vsub k Y (live_set acc')).
+Proof.
+  intros k. induction pairs as [|[f l] rest IH]; intros acc np Hk Hc.
+  - exists acc, []. rewrite app_nil_r. cbn [fold_left app] in *.
+    split; [reflexivity|]. split; [exact Hc|]. split; [intros w _ H; exact H|].
+    split; [intros H; contradiction H; reflexivity|]. intros Y _ H. exact H.
+  - cbn [fold_left]. cbn [app] in Hc.
+    destruct (cascade_pair_step k acc np f l rest Hk Hc) as [acc1 [ex1 [E1 [C1 [M1 [S1 Y1]]]]]].
+    rewrite E1. destruct (IH acc1 (np ++ ex1) Hk C1) as [acc2 [ex2 [E2 [C2 [M2 [S2 Y2]]]]]].
+    exists acc2, (ex1 ++ ex2). rewrite app_assoc.
+    split; [exact E2|]. split; [exact C2|]. split; [|split].
+    + intros w Hw H. apply M1; [exact Hw|]. apply M2; assumption.
+    + intros Hne. destruct ex1 as [|e1 ex1'].
+      * destruct S2 as [w [Hw [Hl1 Hl2]]]; [exact Hne|]. exists w. split; [exact Hw|]. split; [|exact Hl2].
+        apply M1; assumption.
+      * destruct S1 as [w [Hw [Hl1 Hl2]]]; [discriminate|]. exists w. split; [exact Hw|]. split; [exact Hl1|].
+        destruct (live_set acc2 w) eqn:E; [|reflexivity]. rewrite (M2 w Hw E) in Hl2. discriminate.
+    + intros Y HY Hs. apply Y2; [exact HY|]. apply Y1; assumption.
+Qed.
+
+(* number of live rows *)
+Definition lcount (k : nat) (acc : accessor) : nat := length (filter (live_set acc) (vertices_of k)).
+
+Lemma filter_length_lt : forall (P Q : Z -> bool) L x, (forall y, In y L -> P y = true -> Q y = true) ->
+  In x L -> P x = false -> Q x = true -> (length (filter P L) < length (filter Q L))%nat.
+Proof.
+  intros P Q. induction L as [|y ys IH]; intros x H Hin HP HQ; [contradiction|].
+  assert (Hle : (length (filter P ys) <= length (filter Q ys))%nat).
+  { apply filter_length_le. intros z Hz. apply H. right. exact Hz. }
+  cbn [filter]. destruct Hin as [->|Hin].
+  - rewrite HP, HQ. cbn [length]. lia.
+  - assert (Hlt : (length (filter P ys) < length (filter Q ys))%nat).
+    { apply (IH x); try assumption. intros z Hz. apply H. right. exact Hz. }
+    destruct (P y) eqn:EP.
+    + rewrite (H y (or_introl eq_refl) EP). cbn [length]. lia.
+    + destruct (Q y); cbn [length]; lia.
+Qed.
+
+Lemma filter_length_bound : forall (P : Z -> bool) L, (length (filter P L) <= length L)%nat.
+Proof.
+  intros P. induction L as [|y ys IH]; cbn [filter length]; [lia|]. destruct (P y); cbn [length]; lia.
+Qed.
+
+Lemma lcount_bound : forall k acc, (lcount k acc <= Z.to_nat (pow4 k))%nat.
+Proof. intros k acc. unfold lcount. rewrite <- (vertices_length k). apply filter_length_bound. Qed.
+
+Lemma lcount_lt : forall k acc acc' w, (forall v, 0 <= v < pow4 k -> live_set acc' v = true -> live_set acc v = true) ->
+  0 <= w < pow4 k -> live_set acc w = true -> live_set acc' w = false -> (lcount k acc' < lcount k acc)%nat.
+Proof.
+  intros k acc acc' w Hm Hw H1 H2. unfold lcount. apply (filter_length_lt _ _ _ w); try assumption.
+  - intros y Hy. apply Hm. apply In_vertices. exact Hy.
+  - apply In_vertices. exact Hw.
+Qed.
+
+Lemma cascade_nil : forall fuel k acc, cascade fuel k acc [] = Ok acc.
+Proof. intros fuel k acc. destruct fuel; reflexivity. Qed.
+
+Lemma cascade_spec : forall fuel k acc pairs, (1 <= k)%nat -> cinv k acc pairs -> (lcount k acc < fuel)%nat ->
+  exists acc', cascade fuel k acc pairs = Ok acc' /\ cinv k acc' [] /\
+    (forall w, 0 <= w < pow4 k -> live_set acc' w = true -> live_set acc w = true) /\
+    (forall Y, closed_deg k 1 Y -> vsub k Y (live_set acc) -> vsub k Y (live_set acc')).
+Proof.
+  induction fuel as [|fuel IH]; intros k acc pairs Hk Hc Hf; [lia|].
+  destruct pairs as [|p ps].
+  - exists acc. split; [reflexivity|]. split; [exact Hc|]. split; [intros w _ H; exact H|]. intros Y _ H. exact H.
+  - cbn [cascade].
+    assert (Hc' : cinv k acc ((p :: ps) ++ [])) by (rewrite app_nil_r; exact Hc).
+    destruct (cascade_fold k (p :: ps) acc [] Hk Hc') as [acc1 [ex [E [C [M [S Y]]]]]].
+    cbn [app] in E, C. rewrite E. destruct ex as [|e es].
+    + rewrite cascade_nil. exists acc1. split; [reflexivity|]. split; [exact C|]. split; [exact M | exact Y].
+    + destruct S as [w [Hw [Hl1 Hl2]]]; [discriminate|].
+      pose proof (lcount_lt k acc acc1 w M Hw Hl1 Hl2) as Hlt.
+      destruct (IH k acc1 (e :: es) Hk C ltac:(lia)) as [acc2 [E2 [C2 [M2 Y2]]]].
+      exists acc2. split; [exact E2|]. split; [exact C2|]. split.
+      * intros v Hv H. apply M; [exact Hv|]. apply M2; assumption.
+      * intros Z0 HZ Hs. apply Y2; [exact HZ|]. apply Y; assumption.
+Qed.
+
+(* a stable state is the induced sub-graph on its live vertices, and conversely *)
+Lemma cinv_nil_good : forall k acc, cinv k acc [] -> acc = induced_on k (live_set acc).
+Proof.
+  intros k acc [HL [_ [H3 H4]]]. apply (acc_ext k); [exact HL | apply induced_on_legal|].
+  intros v j Hv Hj. rewrite induced_on_entry by assumption. fold (lat k v j).
+  pose proof (lat_range k v j) as Hlr.
+  destruct (live_set acc v) eqn:Ev; cbn [andb].
+  - destruct (live_set acc (lat k v j)) eqn:El; [apply H3; assumption|].
+    destruct (legal_entry k acc v j HL Hv Hj) as [E|E]; [exact E|].
+    exfalso. apply (H4 v j Hv Hj); [rewrite E; lia | exact El].
+  - destruct (legal_entry k acc v j HL Hv Hj) as [E|E]; [exact E|].
+    rewrite (entry_live acc v j) in Ev by (rewrite E; lia). discriminate.
+Qed.
+
+Lemma good_cinv_nil : forall k acc, acc = induced_on k (live_set acc) -> cinv k acc [].
+Proof.
+  intros k acc Hg.
+  assert (He : forall v j, 0 <= v < pow4 k -> 0 <= j < 4 ->
+            entry acc v j = if live_set acc v && live_set acc (lat k v j) then lat k v j else -1).
+  { intros v j Hv Hj. replace (entry acc v j) with (entry (induced_on k (live_set acc)) v j) by (rewrite <- Hg; reflexivity).
+    apply induced_on_entry; assumption. }
+  split; [rewrite Hg; apply induced_on_legal|]. split; [intros v w []|]. split.
+  - intros v j Hv Hj Hlv Hlw. rewrite He by assumption. rewrite Hlv, Hlw. reflexivity.
+  - intros v j Hv Hj H0 Hd. rewrite He in H0 by assumption. rewrite Hd, andb_false_r in H0. lia.
+Qed.
+
+(* ======================================================================================== *)
+(* part C: removing vertices                                                                *)
+(* ======================================================================================== *)
+Lemma remove_vertex_spec : forall k acc u, (1 <= k)%nat -> cinv k acc [] -> 0 <= u < pow4 k ->
+  exists acc', remove_vertex k acc u = Ok acc' /\ cinv k acc' [] /\
+    (forall w, 0 <= w < pow4 k -> live_set acc' w = true -> live_set acc w = true) /\
+    live_set acc' u = false /\
+    (forall Y, closed_deg k 1 Y -> Y u = false -> vsub k Y (live_set acc) -> vsub k Y (live_set acc')).
+Proof.
+  intros k acc u Hk [HL [_ [H3 H4]]] Hu. pose proof HL as [Hlen _].
+  unfold remove_vertex. set (acc1 := set_nth acc (Z.to_nat u) empty_row).
+  assert (HL1 : legal k acc1).
+  { apply legal_set_row; [exact HL | exact Hu | reflexivity|]. intros j _. left. apply nth_empty_row. }
+  assert (Hent : forall v j, 0 <= v -> entry acc1 v j = if v =? u then -1 else entry acc v j).
+  { intros v j Hv. unfold entry, acc1. rewrite get_row_set by lia. destruct (v =? u); [apply nth_empty_row | reflexivity]. }
+  assert (Hlive : forall w, 0 <= w -> live_set acc1 w = if w =? u then false else live_set acc w).
+  { intros w Hw. unfold live_set, acc1. rewrite get_row_set by lia. destruct (w =? u); reflexivity. }
+  assert (M1 : forall w, 0 <= w < pow4 k -> live_set acc1 w = true -> live_set acc w = true).
+  { intros w Hw H. rewrite Hlive in H by lia. destruct (w =? u); [discriminate | exact H]. }
+  assert (C1 : cinv k acc1 (map (fun i => (i, u)) (obtain_formers u k))).
+  { split; [exact HL1|]. split; [|split].
+    - intros v w Hin. apply in_map_iff in Hin. destruct Hin as [i [Heq Hi]].
+      injection Heq as Hiv Huw. subst v w. pose proof (formers_range k u i Hk Hu Hi) as Hv.
+      split; [exact Hv|]. split; [exact Hu|]. split; [apply (pred_succ k i u Hk Hv Hu); exact Hi|].
+      rewrite Hlive by lia. rewrite Z.eqb_refl. reflexivity.
+    - intros v j Hv Hj Hlv Hlw. pose proof (lat_range k v j) as Hlr.
+      rewrite Hlive in Hlv, Hlw by lia. rewrite Hent by lia.
+      destruct (v =? u); [discriminate|]. destruct (lat k v j =? u); [discriminate|]. apply H3; assumption.
+    - intros v j Hv Hj He Hd. pose proof (lat_range k v j) as Hlr.
+      rewrite Hent in He by lia. destruct (v =? u) eqn:Evu; [lia|].
+      rewrite Hlive in Hd by lia. destruct (lat k v j =? u) eqn:Elu.
+      + assert (Hq : lat k v j = u) by lia. rewrite Hq. apply in_map_iff. exists v. split; [reflexivity|].
+        apply (pred_succ k v u Hk Hv Hu). apply In_latters. exists j. split; [exact Hj | symmetry; exact Hq].
+      + destruct (H4 v j Hv Hj He Hd). }
+  assert (Hfuel : (lcount k acc1 < S (length acc))%nat).
+  { pose proof (lcount_bound k acc1). lia. }
+  destruct (cascade_spec (S (length acc)) k acc1 _ Hk C1 Hfuel) as [acc2 [E2 [C2 [M2 Y2]]]].
+  exists acc2. split; [exact E2|]. split; [exact C2|]. split; [|split].
+  - intros w Hw H. apply M1; [exact Hw|]. apply M2; assumption.
+  - destruct (live_set acc2 u) eqn:E; [|reflexivity]. pose proof (M2 u Hu E) as H.
+    rewrite Hlive in H by lia. rewrite Z.eqb_refl in H. discriminate.
+  - intros Y HY HYu Hs. apply Y2; [exact HY|]. intros w Hw. destruct (Hs w Hw) as [Hwr Hwl].
+    split; [exact Hwr|]. rewrite Hlive by lia. destruct (w =? u) eqn:E; [|exact Hwl].
+    assert (w = u) by lia. subst w. destruct Hw as [_ Hw]. congruence.
+Qed.
+
+Lemma remove_vertices_spec : forall k us acc, (1 <= k)%nat -> cinv k acc [] ->
+  (forall u, In u us -> 0 <= u < pow4 k) ->
+  exists acc', remove_vertices k acc us = Ok acc' /\ cinv k acc' [] /\
+    (forall w, 0 <= w < pow4 k -> live_set acc' w = true -> live_set acc w = true) /\
+    (forall u, In u us -> live_set acc' u = false) /\
+    (forall Y, closed_deg k 1 Y -> (forall u, In u us -> Y u = false) ->
+               vsub k Y (live_set acc) -> vsub k Y (live_set acc')).
+Proof.
+  intros k. induction us as [|u us IH]; intros acc Hk Hc Hr.
+  - exists acc. split; [reflexivity|]. split; [exact Hc|]. split; [intros w _ H; exact H|].
+    split; [intros u []|]. intros Y _ _ H. exact H.
+  - cbn [remove_vertices].
+    destruct (remove_vertex_spec k acc u Hk Hc (Hr u (or_introl eq_refl))) as [acc1 [E1 [C1 [M1 [D1 Y1]]]]].
+    rewrite E1. cbn [bind].
+    destruct (IH acc1 Hk C1 (fun w Hw => Hr w (or_intror Hw))) as [acc2 [E2 [C2 [M2 [D2 Y2]]]]].
+    exists acc2. split; [exact E2|]. split; [exact C2|]. split; [|split].
+    + intros w Hw H. apply M1; [exact Hw|]. apply M2; assumption.
+    + intros w [->|Hw]; [|apply D2; exact Hw].
+      destruct (live_set acc2 w) eqn:E; [|reflexivity].
+      rewrite (M2 w (Hr w (or_introl eq_refl)) E) in D1. discriminate.
+    + intros Y HY HYu Hs. apply Y2; [exact HY | intros w Hw; apply HYu; right; exact Hw|].
+      apply Y1; [exact HY | apply HYu; left; reflexivity | exact Hs].
+Qed.
+
+(* ======================================================================================== *)
+(* part C: the listed vertices, and the vertices that reach a branching vertex              *)
+(* ======================================================================================== *)
+Lemma listed_from_filter : forall acc s,
+  listed_from acc s =
+    filter (fun v => row_listed (nth (Z.to_nat (v - s)) acc empty_row)) (zrange_from s (length acc)).
+Proof.
+  induction acc as [|row t IH]; intros s; [reflexivity|].
+  cbn [listed_from length zrange_from filter]. replace (s - s) with 0 by lia.
+  change (Z.to_nat 0) with 0%nat. cbn [nth]. rewrite IH.
+  assert (He : filter (fun v => row_listed (nth (Z.to_nat (v - (s + 1))) t empty_row)) (zrange_from (s + 1) (length t))
+             = filter (fun v => row_listed (nth (Z.to_nat (v - s)) (row :: t) empty_row)) (zrange_from (s + 1) (length t))).
+  { apply filter_ext_in_Z. intros v Hv. apply zrange_from_In in Hv.
+    replace (Z.to_nat (v - s)) with (S (Z.to_nat (v - (s + 1)))) by lia. reflexivity. }
+  rewrite He. destruct (row_listed row); reflexivity.
+Qed.
+
+Lemma obtain_vertices_filter : forall k acc, length acc = Z.to_nat (pow4 k) ->
+  obtain_vertices acc = filter (live_set acc) (vertices_of k).
+Proof.
+  intros k acc Hl. unfold obtain_vertices. rewrite listed_from_filter, Hl. unfold vertices_of, zrange.
+  apply filter_ext_in_Z. intros v _. rewrite Z.sub_0_r. reflexivity.
+Qed.
+
+Lemma memZ_In : forall x l, memZ x l = true <-> In x l.
+Proof.
+  intros x. induction l as [|y ys IH]; cbn [memZ In]; [split; [discriminate | contradiction]|].
+  rewrite orb_true_iff, IH. split; (intros [H|H]; [left; lia | right; exact H]).
+Qed.
+
+Definition uget (U : list bool) (v : Z) : bool := nth (Z.to_nat v) U false.
+Definition ustep_val (acc : accessor) (U : list bool) (v : Z) : bool :=
+  uget U v || existsb (uget U) (live_entries (get_row acc v)).
+
+Lemma useful_step_eq : forall acc listed U,
+  useful_step acc listed U = fold_left (fun r v => set_nth r (Z.to_nat v) (ustep_val acc U v)) listed U.
+Proof. reflexivity. Qed.
+
+Lemma fold_set_nth : forall (g : Z -> bool) l r0, (forall v, In v l -> 0 <= v < Z.of_nat (length r0)) ->
+  length (fold_left (fun r v => set_nth r (Z.to_nat v) (g v)) l r0) = length r0 /\
+  forall w, 0 <= w ->
+    nth (Z.to_nat w) (fold_left (fun r v => set_nth r (Z.to_nat v) (g v)) l r0) false
+      = if memZ w l then g w else nth (Z.to_nat w) r0 false.
+Proof.
+  intros g. induction l as [|x xs IH]; intros r0 Hr; cbn [fold_left memZ].
+  - split; [reflexivity|]. intros w _. reflexivity.
+  - assert (Hr' : forall v, In v xs -> 0 <= v < Z.of_nat (length (set_nth r0 (Z.to_nat x) (g x)))).
+    { intros v Hv. rewrite set_nth_length. apply Hr. right. exact Hv. }
+    destruct (IH _ Hr') as [Hlen Hnth]. split; [rewrite Hlen; apply set_nth_length|].
+    intros w Hw. rewrite (Hnth w Hw). destruct (memZ w xs); [rewrite orb_true_r; reflexivity|].
+    rewrite orb_false_r. pose proof (Hr x (or_introl eq_refl)) as Hx.
+    destruct (w =? x) eqn:E.
+    + assert (w = x) by lia. subst w. apply nth_set_nth_eq. lia.
+    + apply nth_set_nth_neq. lia.
+Qed.
+
+Lemma list_bool_eqb_eq : forall a b, list_bool_eqb a b = true -> a = b.
+Proof.
+  induction a as [|x a IH]; intros b H; destruct b as [|y b]; cbn [list_bool_eqb] in H; try discriminate; [reflexivity|].
+  apply andb_true_iff in H. destruct H as [H1 H2]. apply Bool.eqb_prop in H1. rewrite H1, (IH b H2). reflexivity.
+Qed.
+
+Lemma list_bool_eqb_refl : forall a, list_bool_eqb a a = true.
+Proof. induction a as [|x a IH]; cbn [list_bool_eqb]; [reflexivity|]. rewrite Bool.eqb_reflx, IH. reflexivity. Qed.
+
+Definition cfalse (l : list bool) : nat := length (filter negb l).
+
+Lemma cfalse_bound : forall l, (cfalse l <= length l)%nat.
+Proof.
+  unfold cfalse. induction l as [|x xs IH]; cbn [filter length]; [lia|]. destruct (negb x); cbn [length]; lia.
+Qed.
+
+Lemma cfalse_le : forall a b, length a = length b -> (forall i, nth i a false = true -> nth i b false = true) ->
+  (cfalse b <= cfalse a)%nat /\ (cfalse b = cfalse a -> a = b).
+Proof.
+  unfold cfalse. induction a as [|x a IH]; intros b Hl H; destruct b as [|y b]; cbn [length] in Hl; try discriminate.
+  - split; [lia | reflexivity].
+  - assert (Hl' : length a = length b) by lia.
+    assert (H' : forall i, nth i a false = true -> nth i b false = true) by (intros i; apply (H (S i))).
+    destruct (IH b Hl' H') as [Hle Heq]. pose proof (H 0%nat) as H0. cbn [nth] in H0.
+    destruct x, y; cbn [filter negb length].
+    + split; [exact Hle|]. intros He. rewrite (Heq He). reflexivity.
+    + discriminate (H0 eq_refl).
+    + split; [lia|]. intros He. lia.
+    + split; [lia|]. intros He. rewrite (Heq ltac:(lia)). reflexivity.
+Qed.
+
+Lemma useful_fix_spec : forall fuel acc listed U0,
+  (forall v, In v listed -> 0 <= v < Z.of_nat (length U0)) -> (cfalse U0 < fuel)%nat ->
+  exists U, useful_fix fuel acc listed U0 = Ok U /\ length U = length U0 /\
+    (forall w, 0 <= w -> uget U0 w = true -> uget U w = true) /\
+    (forall v, In v listed -> ustep_val acc U v = uget U v) /\
+    (forall P : Z -> Prop, (forall w, 0 <= w -> uget U0 w = true -> P w) ->
+       (forall v l, In v listed -> In l (live_entries (get_row acc v)) -> P l -> P v) ->
+       forall w, 0 <= w -> uget U w = true -> P w).
+Proof.
+  induction fuel as [|f IH]; intros acc listed U0 Hr Hf; [lia|].
+  cbn [useful_fix]. rewrite useful_step_eq.
+  destruct (fold_set_nth (ustep_val acc U0) listed U0 Hr) as [Hlen Hnth].
+  set (reached := fold_left (fun r v => set_nth r (Z.to_nat v) (ustep_val acc U0 v)) listed U0) in *.
+  destruct (list_bool_eqb reached U0) eqn:E.
+  - apply list_bool_eqb_eq in E. exists U0. split; [reflexivity|]. split; [reflexivity|].
+    split; [intros w _ H; exact H|]. split.
+    + intros v Hv. pose proof (Hr v Hv) as Hvr. pose proof (Hnth v ltac:(lia)) as Hn.
+      rewrite (proj2 (memZ_In v listed) Hv) in Hn. rewrite E in Hn. symmetry. exact Hn.
+    + intros P Hb _ w Hw H. apply Hb; assumption.
+  - assert (Hsub : forall w, 0 <= w -> uget U0 w = true -> uget reached w = true).
+    { intros w Hw H. unfold uget. rewrite (Hnth w Hw). destruct (memZ w listed); [|exact H].
+      unfold ustep_val. rewrite H. reflexivity. }
+    assert (Hsubn : forall i, nth i U0 false = true -> nth i reached false = true).
+    { intros i H. pose proof (Hsub (Z.of_nat i) ltac:(lia)) as Hs. unfold uget in Hs. rewrite Nat2Z.id in Hs. apply Hs. exact H. }
+    destruct (cfalse_le U0 reached (eq_sym Hlen) Hsubn) as [Hle Heq].
+    assert (Hne : cfalse reached <> cfalse U0).
+    { intros Hc. rewrite <- (Heq Hc) in E. rewrite list_bool_eqb_refl in E. discriminate. }
+    assert (Hr' : forall v, In v listed -> 0 <= v < Z.of_nat (length reached)) by (rewrite Hlen; exact Hr).
+    destruct (IH acc listed reached Hr' ltac:(lia)) as [U [EU [HUl [HUs [HUf HUP]]]]].
+    exists U. split; [exact EU|]. split; [congruence|]. split; [|split; [exact HUf|]].
+    + intros w Hw H. apply HUs; [exact Hw|]. apply Hsub; assumption.
+    + intros P Hb Hst. apply HUP; [|exact Hst].
+      intros w Hw H. unfold uget in H. rewrite (Hnth w Hw) in H.
+      destruct (memZ w listed) eqn:Em; [|apply Hb; assumption].
+      unfold ustep_val in H. apply orb_true_iff in H. destruct H as [H|H]; [apply Hb; assumption|].
+      apply existsb_exists in H. destruct H as [l [Hl Hul]].
+      apply (Hst w l); [apply memZ_In; exact Em | exact Hl|].
+      apply Hb; [|exact Hul]. unfold live_entries in Hl. apply filter_In in Hl. lia.
+Qed.
+
+(* ======================================================================================== *)
+(* part C: one round of the threshold-1 loop, the loop, and the theorem                     *)
+(* ======================================================================================== *)
+Lemma uget_init : forall (acc : accessor) w, 0 <= w -> uget (map (fun r => 1 <? out_degree r) acc) w = true ->
+  0 <= w < Z.of_nat (length acc) /\ 1 < out_degree (get_row acc w).
+Proof.
+  intros acc w Hw H. unfold uget in H.
+  destruct (Nat.lt_ge_cases (Z.to_nat w) (length acc)) as [Hlt|Hge].
+  - rewrite (nth_map_lt _ _ (fun r => 1 <? out_degree r) acc _ false empty_row Hlt) in H.
+    split; [lia|]. unfold get_row. lia.
+  - rewrite nth_overflow in H by (rewrite map_length; exact Hge). discriminate.
+Qed.
+
+Lemma uget_init_true : forall (acc : accessor) w, 0 <= w < Z.of_nat (length acc) -> 1 < out_degree (get_row acc w) ->
+  uget (map (fun r => 1 <? out_degree r) acc) w = true.
+Proof.
+  intros acc w Hw H. unfold uget.
+  rewrite (nth_map_lt _ _ (fun r => 1 <? out_degree r) acc _ false empty_row) by lia.
+  unfold get_row in H. lia.
+Qed.
+
+Section Good.
+Variable k : nat.
+Variable acc : accessor.
+Hypothesis Hg : acc = induced_on k (live_set acc).
+
+Lemma good_legal : legal k acc.
+Proof. rewrite Hg. apply induced_on_legal. Qed.
+
+Lemma good_row : forall v, 0 <= v < pow4 k -> get_row acc v = on_row k (live_set acc) v.
+Proof. intros v Hv. pose proof (get_row_induced_on k (live_set acc) v Hv) as H. rewrite <- Hg in H. exact H. Qed.
+
+Lemma good_live_entries : forall v, 0 <= v < pow4 k -> live_set acc v = true ->
+  live_entries (get_row acc v) = filter (live_set acc) (obtain_latters v k).
+Proof.
+  intros v Hv Hl. rewrite good_row by exact Hv. unfold on_row. rewrite Hl.
+  apply live_entries_sel. apply latters_nonneg.
+Qed.
+
+Lemma good_outdeg : forall v, 0 <= v < pow4 k -> live_set acc v = true ->
+  out_degree (get_row acc v) = succ_count k (live_set acc) v.
+Proof.
+  intros v Hv Hl. unfold out_degree. rewrite good_live_entries by assumption. reflexivity.
+Qed.
+
+Lemma good_closed_deg : closed_deg k 1 (live_set acc).
+Proof.
+  intros v [Hv Hl]. pose proof (live_set_induced_on k (live_set acc) v Hv) as H.
+  rewrite <- Hg in H. rewrite Hl in H. cbn [andb] in H. lia.
+Qed.
+
+Lemma useful_round :
+  exists U, useful_fix (S (length acc)) acc (filter (live_set acc) (vertices_of k))
+                       (map (fun r => 1 <? out_degree r) acc) = Ok U /\
+    (forall w, 0 <= w -> uget U w = true -> reach_branch k (live_set acc) w) /\
+    (forall Y, closed k 1 Y -> vsub k Y (live_set acc) -> forall v, vin k Y v -> uget U v = true).
+Proof.
+  pose proof good_legal as HL. pose proof HL as [Hlen _].
+  set (X := live_set acc). set (listed := filter X (vertices_of k)).
+  set (U0 := map (fun r => 1 <? out_degree r) acc).
+  assert (Hlisted : forall v, In v listed <-> vin k X v).
+  { intros v. unfold listed. rewrite filter_In, In_vertices. unfold vin. tauto. }
+  assert (Hr : forall v, In v listed -> 0 <= v < Z.of_nat (length U0)).
+  { intros v Hv. apply Hlisted in Hv. destruct Hv as [Hv _]. unfold U0. rewrite map_length. lia. }
+  assert (Hf : (cfalse U0 < S (length acc))%nat).
+  { pose proof (cfalse_bound U0) as H. unfold U0 in H at 2. rewrite map_length in H. lia. }
+  destruct (useful_fix_spec (S (length acc)) acc listed U0 Hr Hf) as [U [EU [HUl [HUs [HUf HUP]]]]].
+  exists U. split; [exact EU|]. split.
+  - apply (HUP (reach_branch k X)).
+    + intros w Hw H. apply uget_init in H; [|exact Hw]. destruct H as [Hwr Hd].
+      assert (Hwk : 0 <= w < pow4 k) by lia.
+      assert (Hlw : X w = true).
+      { unfold X. rewrite (live_set_outdeg k acc w HL Hwk). unfold outdeg. lia. }
+      apply rb_here; [split; assumption|]. unfold X. rewrite <- good_outdeg by assumption. lia.
+    + intros v l Hv Hl Hrl. apply Hlisted in Hv. destruct Hv as [Hvr Hvl].
+      rewrite good_live_entries in Hl by assumption. apply filter_In in Hl. destruct Hl as [Hl1 Hl2].
+      apply (rb_step k X v l); [split; assumption | exact Hl1 | | exact Hrl].
+      split; [apply (latters_range k v l Hl1) | exact Hl2].
+  - intros Y [HYc HYr] HYs v Hv. specialize (HYr eq_refl v Hv).
+    induction HYr as [v Hv' Hs | v w Hv' Hw Hwin Hrw IH].
+    + destruct (HYs v Hv) as [Hvr Hvl]. apply HUs; [lia|]. apply uget_init_true; [lia|].
+      rewrite good_outdeg by assumption. pose proof (succ_count_mono k Y (live_set acc) v HYs). lia.
+    + destruct (HYs v Hv) as [Hvr Hvl]. destruct (HYs w Hwin) as [Hwr Hwl].
+      rewrite <- (HUf v) by (apply Hlisted; split; assumption).
+      unfold ustep_val. apply orb_true_iff. right. apply existsb_exists. exists w. split.
+      * rewrite good_live_entries by assumption. apply filter_In. split; assumption.
+      * apply IH. exact Hwin.
+Qed.
+End Good.
+
+Lemma filter_nil_all : forall (P : Z -> bool) L x, filter P L = [] -> In x L -> P x = false.
+Proof.
+  intros P L x H Hin. destruct (P x) eqn:E; [|reflexivity].
+  assert (Hf : In x (filter P L)) by (apply filter_In; split; assumption). rewrite H in Hf. contradiction.
+Qed.
+
+Lemma threshold1_spec : forall fuel k acc, (1 <= k)%nat -> acc = induced_on k (live_set acc) ->
+  (lcount k acc < fuel)%nat ->
+  match threshold1_fuel fuel k acc with
+  | Ok (V, acc') => acc' = induced_on k (live_set acc') /\
+       (forall w, 0 <= w < pow4 k -> live_set acc' w = true -> live_set acc w = true) /\
+       (forall Y, closed k 1 Y -> vsub k Y (live_set acc) -> vsub k Y (live_set acc')) /\
+       (forall v, vin k (live_set acc') v -> reach_branch k (live_set acc') v) /\
+       (forall v, In v V <-> vin k (live_set acc') v) /\ (exists v, vin k (live_set acc') v)
+  | Raise ValueError => forall Y, closed k 1 Y -> vsub k Y (live_set acc) -> vempty k Y
+  | _ => False
+  end.
+Proof.
+  induction fuel as [|fuel IH]; intros k acc Hk Hg Hf; [lia|].
+  pose proof (good_legal k acc Hg) as HL. pose proof HL as [Hlen _].
+  cbn [threshold1_fuel]. rewrite (obtain_vertices_filter k acc Hlen).
+  assert (Hlisted : forall v, In v (filter (live_set acc) (vertices_of k)) <-> vin k (live_set acc) v).
+  { intros v. rewrite filter_In, In_vertices. unfold vin. tauto. }
+  destruct (useful_round k acc Hg) as [U [EU [Hsound Hcompl]]].
+  destruct (filter (live_set acc) (vertices_of k)) as [|v0 vs] eqn:Elisted.
+  - intros Y _ Hs v Hv. apply (Hlisted v). apply Hs. exact Hv.
+  - cbv iota. rewrite EU. cbn [bind].
+    set (listed := v0 :: vs) in *.
+    set (useless := filter (fun v => negb (nth (Z.to_nat v) U false)) listed).
+    assert (Huseless : forall u, In u useless -> vin k (live_set acc) u /\ uget U u = false).
+    { intros u Hu. unfold useless in Hu. apply filter_In in Hu. destruct Hu as [Hu1 Hu2].
+      split; [apply Hlisted; exact Hu1|]. unfold uget. destruct (nth (Z.to_nat u) U false); [discriminate | reflexivity]. }
+    destruct useless as [|u us] eqn:Euseless.
+    + split; [exact Hg|]. split; [intros w _ H; exact H|]. split; [intros Y _ H; exact H|].
+      split; [|split; [exact Hlisted|]].
+      * intros v Hv. apply Hsound; [destruct Hv; lia|].
+        pose proof (filter_nil_all _ _ v Euseless (proj2 (Hlisted v) Hv)) as H. cbv beta in H.
+        unfold uget. destruct (nth (Z.to_nat v) U false); [reflexivity | discriminate].
+      * exists v0. apply Hlisted. left. reflexivity.
+    + rewrite <- Euseless in *. clearbody useless.
+      assert (Hur : forall w, In w useless -> 0 <= w < pow4 k).
+      { intros w Hw. destruct (Huseless w Hw) as [[H _] _]. exact H. }
+      destruct (remove_vertices_spec k useless acc Hk (good_cinv_nil k acc Hg) Hur) as [acc1 [E1 [C1 [M1 [D1 Y1]]]]].
+      rewrite E1. cbn [bind].
+      assert (Hg1 : acc1 = induced_on k (live_set acc1)) by (apply cinv_nil_good; exact C1).
+      assert (Hu : In u useless) by (rewrite Euseless; left; reflexivity).
+      destruct (Huseless u Hu) as [[Hur' Hul] _].
+      pose proof (lcount_lt k acc acc1 u M1 Hur' Hul (D1 u Hu)) as Hlt.
+      assert (HY1 : forall Y, closed k 1 Y -> vsub k Y (live_set acc) -> vsub k Y (live_set acc1)).
+      { intros Y HY Hs. destruct HY as [HYc HYr]. apply Y1; [exact HYc | | exact Hs].
+        intros w Hw. destruct (Huseless w Hw) as [[Hwr _] Hwu].
+        destruct (Y w) eqn:EY; [|reflexivity].
+        rewrite (Hcompl Y (conj HYc HYr) Hs w (conj Hwr EY)) in Hwu. discriminate. }
+      specialize (IH k acc1 Hk Hg1 ltac:(lia)).
+      destruct (threshold1_fuel fuel k acc1) as [[V acc2]|e|]; [|destruct e|]; try exact IH.
+      * destruct IH as [G2 [M2 [Y2 [R2 [V2 X2]]]]].
+        split; [exact G2|]. split; [|split; [|split; [exact R2|split; [exact V2 | exact X2]]]].
+        -- intros w Hw H. apply M1; [exact Hw|]. apply M2; assumption.
+        -- intros Y HY Hs. apply Y2; [exact HY|]. apply HY1; assumption.
+      * intros Y HY Hs. apply IH; [exact HY|]. apply HY1; assumption.
+Qed.
+
+Theorem coding_graph_t1 : forall k mask, (1 <= k)%nat -> length mask = Z.to_nat (pow4 k) -> Forall bit mask ->
+  match connect_coding_graph k mask 1 with
+  | Ok (V, acc) => largest_closed k 1 (maskb mask) (live_set acc)
+                   /\ acc = induced_on k (live_set acc) /\ legal k acc
+                   /\ (forall v, In v V <-> vin k (live_set acc) v)
+                   /\ (exists v, vin k (live_set acc) v)
+  | Raise ValueError => forall Y, closed k 1 Y -> vsub k Y (maskb mask) -> vempty k Y
+  | _ => False
+  end.
+Proof.
+  intros k mask Hk Hl Hb. unfold connect_coding_graph.
+  pose proof (trim_spec k 1 mask Hk Hl Hb ltac:(lia)) as HT.
+  destruct (trim_fuel (S (length mask)) k 1 mask) as [m|e|]; cbn [bind].
+  - destruct HT as [Hmb [Hml [Hcd [Hsub [Hmax [v0 Hv0]]]]]].
+    assert (Hpos : (0 <? sumZ m) = true).
+    { destruct (0 <? sumZ m) eqn:E; [reflexivity|]. destruct Hv0 as [_ Hv0].
+      rewrite (mask_zero_empty m Hmb) in Hv0 by lia. discriminate. }
+    rewrite Hpos. change (1 =? 1) with true. cbv iota.
+    destruct (trimmed_graph k 1 mask m ltac:(lia) Hcd Hsub Hmax) as [Hveq Hacc].
+    pose proof (veq_sym _ _ _ Hveq) as Hveq'.
+    set (acc := induced k m) in *.
+    assert (Hlen : length acc = Z.to_nat (pow4 k)) by apply induced_shape.
+    assert (Hfuel : (lcount k acc < S (length acc))%nat) by (pose proof (lcount_bound k acc); lia).
+    pose proof (threshold1_spec (S (length acc)) k acc Hk Hacc Hfuel) as HS.
+    assert (HYin : forall Y, closed k 1 Y -> vsub k Y (maskb mask) -> vsub k Y (live_set acc)).
+    { intros Y [HYc _] HYs v Hv. apply (vin_ext k _ _ v Hveq'). apply (Hmax Y HYc HYs v Hv). }
+    destruct (threshold1_fuel (S (length acc)) k acc) as [[V acc']|e|]; [|destruct e|]; try exact HS.
+    + destruct HS as [G [M [HY [R [HV HX]]]]].
+      split; [|split; [exact G|split; [rewrite G; apply induced_on_legal|split; [exact HV | exact HX]]]].
+      split; [|split].
+      * split; [apply (good_closed_deg k acc' G)|]. intros _. exact R.
+      * intros v [Hvr Hvl]. apply Hsub. apply (vin_ext k _ _ v Hveq). split; [exact Hvr|]. apply M; assumption.
+      * intros Y HYc HYs. apply HY; [exact HYc|]. apply HYin; assumption.
+    + intros Y HYc HYs. apply HS; [exact HYc|]. apply HYin; assumption.
+  - destruct e; try exact HT. intros Y [HYc _] HYs. apply HT; assumption.
+  - exact HT.
+Qed.
+
+Print Assumptions trim_spec.
+Print Assumptions coding_graph_t2.
+Print Assumptions largest_closed_monotone.
+Print Assumptions largest_closed_unique.
+Print Assumptions induced_on_closed_live.
+Print Assumptions coding_graph_t1.
